@@ -49,6 +49,12 @@ def errStream (c : Config) : Stream :=
   let s := if c.terminal then { s with term := true } else s
   if c.quiet then { s with active := false } else s
 
+/-- Spinners and progress bars (`indicatif`) are drawn straight onto the terminal, past the `OutputStream`: create's file
+search spinner, create's and verify's hashing progress bars. They exist when standard error is a styled terminal and
+`--quiet` was not given (the repaired `CreateContent::from_create`; `Create::run`, `Verify::run`). -/
+def progressDrawn (c : Config) : Bool :=
+  (errStream { c with quiet := false }).style && (errStream { c with quiet := false }).term && !c.quiet
+
 inductive Target where | out | err
 deriving DecidableEq, Repr
 
